@@ -221,20 +221,22 @@ def basis_function_one(degree, knot_vector, span, knot):
     :return: basis function, :math:`N_{i,p}`
     :rtype: float
     """
-    # Special case at boundaries
-    if (span == 0 and knot == knot_vector[0]) or \
-            (span == len(knot_vector) - degree - 2) and knot == knot_vector[len(knot_vector) - 1]:
-        return 1.0
+    def in_knot_span(idx):
+        # Knot spans are half-open, except the last non-empty one of the domain which is closed at the domain end
+        # (as in knot span finding and the other basis function algorithms)
+        if knot == knot_vector[len(knot_vector) - degree - 1]:
+            return knot_vector[idx] < knot == knot_vector[idx + 1]
+        return knot_vector[idx] <= knot < knot_vector[idx + 1]
 
     # Knot is outside of span range
-    if knot < knot_vector[span] or knot >= knot_vector[span + degree + 1]:
+    if not any(in_knot_span(span + j) for j in range(0, degree + 1)):
         return 0.0
 
     N = [0.0 for _ in range(degree + span + 1)]
 
     # Initialize the zeroth degree basis functions
     for j in range(0, degree + 1):
-        if knot_vector[span + j] <= knot < knot_vector[span + j + 1]:
+        if in_knot_span(span + j):
             N[j] = 1.0
 
     # Computing triangular table of basis functions
@@ -427,11 +429,11 @@ def basis_function_ders_one(degree, knot_vector, span, knot, order):
     ders = [0.0 for _ in range(0, order + 1)]
 
     def in_knot_span(idx):
-        # Knot spans are half-open, except the last non-empty one which is closed at the end of the knot vector
+        # Knot spans are half-open, except the last non-empty one of the domain which is closed at the domain end
         # (as in knot span finding and the other basis function algorithms)
-        if knot_vector[idx] <= knot < knot_vector[idx + 1]:
-            return True
-        return knot_vector[idx] < knot == knot_vector[idx + 1] == knot_vector[-1]
+        if knot == knot_vector[len(knot_vector) - degree - 1]:
+            return knot_vector[idx] < knot == knot_vector[idx + 1]
+        return knot_vector[idx] <= knot < knot_vector[idx + 1]
 
     # Knot is outside of span range
     if not any(in_knot_span(span + j) for j in range(0, degree + 1)):
